@@ -210,7 +210,21 @@ def conv_maxnb(v):
     return UNITS[v[2]] * v[1]
 
 
-def oracle_parallel(args, stack, r):
+USES_THREADS = {"seq", "thr", "cshm"}
+
+
+def default_choice(dk, prefer, require):
+    """backend chosen when nothing names one: the registered default dk unless a hint/constraint replaces it"""
+    if require == 1:
+        return dk if dk in SHM else "thr"
+    if prefer == 1:
+        return dk if dk in USES_THREADS else "thr"
+    if prefer == 2:
+        return "loky" if dk in USES_THREADS else dk
+    return dk
+
+
+def oracle_parallel(args, stack, r, dk="loky"):
     """Judge one Parallel(**args) result made inside the blocks `stack` (innermost first) by the property as
     worded.  Returns (problem or None, finding_key or None)."""
     prefer = lookup("prefer", args, stack, 0)
@@ -249,7 +263,7 @@ def oracle_parallel(args, stack, r):
         exp_kind = cb[0] if (require != 1 or cb[0] in SHM) else "thr"
         exp_level = cb[1]
     else:
-        exp_kind = "thr" if (require == 1 or prefer == 1) else "loky"
+        exp_kind = default_choice(dk, prefer, require)
         exp_level = 0
     if kind != exp_kind:
         return "backend %s, expected %s" % (kind, exp_kind), None
@@ -289,7 +303,7 @@ def oracle_parallel(args, stack, r):
     return None, None
 
 
-def oracle_active(q, stack, r):
+def oracle_active(q, stack, r, dk="loky"):
     prefer = lookup("prefer", {} if q[1] is None else {"prefer": q[1]}, stack, 0)
     require = lookup("require", {} if q[2] is None else {"require": q[2]}, stack, 0)
     must_raise = prefer not in (0, 1, 2) or require not in (0, 1) or (prefer == 2 and require == 1)
@@ -306,7 +320,7 @@ def oracle_active(q, stack, r):
         if kind != exp or level != cb[1]:
             return "active backend %s@%s, expected %s@%s" % (kind, level, exp, cb[1]), None
     else:
-        exp = "thr" if (require == 1 or prefer == 1) else "loky"
+        exp = default_choice(dk, prefer, require)
         if kind != exp or level != 0:
             return "active backend %s@%s, expected %s@0" % (kind, level, exp), None
     return None, None
@@ -592,10 +606,11 @@ def judge_case(c, r):
         pairs = pair_trace(prog, r["traces"][t])
         for (q, res), stack in zip(pairs, r["obs_ctx"][t]):
             stack = [tuple(s) for s in stack]
+            dk = c.get("default_backend") or "loky"
             if q[0] == "parallel":
-                bad, key = oracle_parallel(q[1], stack, res)
+                bad, key = oracle_parallel(q[1], stack, res, dk)
             elif q[0] == "active":
-                bad, key = oracle_active(q, stack, res)
+                bad, key = oracle_active(q, stack, res, dk)
             else:
                 exp = {}
                 for mgr, spec in reversed(stack):
@@ -612,12 +627,66 @@ def judge_case(c, r):
     return out
 
 
-def minimal_replay(detail):
+def minimal_replay(detail, dk=None):
     """a one-thread program reproducing one observation inside its enclosing blocks"""
     p = ["obs", detail["query"]]
     for mgr, spec in detail["stack"]:
         p = ["with", mgr, spec, p]
-    return {"threads": [["try", p]], "schedule": []}
+    out = {"threads": [["try", p]], "schedule": []}
+    if dk:
+        out["default_backend"] = dk
+    return out
+
+
+# ---- flat cases: one observation inside a chain of blocks, for each registered default backend class; compared with
+# ---- Parallel.__init__ running the REGENERATED _get_active_backend and with the hand model
+DEFS_FLAT_BASE = """Definition show_flat (f : ckind -> pargs -> config -> result pres) (dk : ckind) (specs : list (mgr * cspec)) (a : pargs) : list Z :=
+  match cfg_of_specs specs default_config with
+  | Ok c => show_obs (RParallel (f dk a c))
+  | Raise _ => [9]
+  end."""
+DEFS_FLAT_SRC = """Definition pinit_src (dk : ckind) (a : pargs) (c : config) : result pres :=
+  parallel_init_with (fun p r cfg => src_get_active_backend dk p r (a_verbose a) cfg) a c.
+Definition show_active (dk : ckind) (specs : list (mgr * cspec)) (p r : option Z) : list Z :=
+  match cfg_of_specs specs default_config with
+  | Ok c => show_obs (RActive (bind (src_get_active_backend dk p r None c) (fun '(b, cfg) => Ok (b, gcp None (c_njobs cfg) None))))
+  | Raise _ => [9]
+  end."""
+REQ_FLAT = """From Coq Require Import ZArith List Bool.
+Require Import JV.Base.PyPrelude JV.Model.Config JV.Gen.T_active_backend.
+Import ListNotations. Open Scope Z_scope."""
+
+
+def gen_flat(rng, quick):
+    """(default backend, chain of valid blocks outermost first, query)"""
+    specs = [sp for sp in RED_SPECS if sp[1].get("backend", [""])[0] != "invalid"]
+    out = []
+    for dk in ("loky", "thr", "seq", "mp"):
+        chains = [[]] + [[s1] for s1 in specs] + [[s1, s2] for s1 in specs for s2 in specs if rng.random() < (0.12 if quick else 0.6)]
+        for ch in chains:
+            for a in RED_ARGS:
+                if len(ch) == 2 and rng.random() < (0.6 if quick else 0.0):
+                    continue
+                out.append((dk, ch, ["parallel", a]))
+            for q in RED_ACTIVE[:4]:
+                out.append((dk, ch, q))
+    return out
+
+
+def flat_case(dk, chain, q):
+    p = ["obs", q]
+    for mgr, spec in reversed(chain):
+        p = ["with", mgr, spec, p]
+    return {"threads": [["try", p]], "schedule": [], "default_backend": dk}
+
+
+def flat_exprs(dk, chain, q):
+    sp = "[" + "; ".join("(%s, %s)" % ("MConfig" if m == "config" else "MBackend", enc_fields(s, "s")) for m, s in chain) + "]"
+    if q[0] == "parallel":
+        a = enc_args(q[1])
+        return ["show_flat pinit_src %s %s %s" % (KCOQ[dk], sp, a), "show_flat parallel_init_dk %s %s %s" % (KCOQ[dk], sp, a)]
+    pr = tuple("None" if v is None else "(Some %s)" % z(v) for v in q[1:3])
+    return ["show_active %s %s %s %s" % ((KCOQ[dk], sp) + pr)]
 
 
 def model_traces(ctx, progs, name):
@@ -662,20 +731,27 @@ def run(ctx):
         "the harness: program generator, scripted thread scheduler, canonicalisation, the Python oracle",
     ]
     translator_ok = True
-    try:
-        _, changed, _ = gen_c17.generate()
-        if changed:
-            ctx.note("Gen/T_config_param.v changed: the source of _get_config_param differs from the last run")
-    except translate_c17.TranslateError as e:
-        translator_ok = False
-        good = os.path.join(common.COQ, "Gen", ".T_config_param.v.good")
-        if os.path.exists(good):   # proofs are then checked against the last translation that was proved, not a stale one
-            common.write_if_changed(os.path.join(common.COQ, "Gen", "T_config_param.v"), open(good).read())
-        ctx.note("translator rejected _get_config_param (%s); falling back to the hand model tie" % e)
+    gens = [(gen_c17.generate, "T_config_param", "_get_config_param"),
+            (gen_c17.generate_active_backend, "T_active_backend", "_get_active_backend")]
+    rejected = set()
+    for gen, fname, label in gens:
+        try:
+            _, changed, _ = gen()
+            if changed:
+                ctx.note("Gen/%s.v changed: the source of %s differs from the last run" % (fname, label))
+        except translate_c17.TranslateError as e:
+            translator_ok = False
+            rejected.add(fname)
+            good = os.path.join(common.COQ, "Gen", ".%s.v.good" % fname)
+            if os.path.exists(good):   # proofs are then checked against the last translation that was proved, not a stale one
+                common.write_if_changed(os.path.join(common.COQ, "Gen", "%s.v" % fname), open(good).read())
+            ctx.note("translator rejected %s (%s); falling back to the hand model tie" % (label, e))
     proofs_ok = ctx.standard_proof_stage("C17", search=lambda: search_failing(ctx))
-    if proofs_ok and translator_ok:
-        common.write_if_changed(os.path.join(common.COQ, "Gen", ".T_config_param.v.good"),
-                                open(os.path.join(common.COQ, "Gen", "T_config_param.v")).read())
+    if proofs_ok:
+        for gen, fname, label in gens:
+            if fname not in rejected:
+                common.write_if_changed(os.path.join(common.COQ, "Gen", ".%s.v.good" % fname),
+                                        open(os.path.join(common.COQ, "Gen", "%s.v" % fname)).read())
 
     # ---- cases
     progs = gen_exhaustive(quick)
@@ -729,9 +805,44 @@ def run(ctx):
             disagreements.append({"case": cases[ci], "thread": t, "position": k,
                                   "impl": iv[k] if k < len(iv) else None, "model": mv[k] if k < len(mv) else None})
 
+    # ---- flat cases under every registered default backend class: implementation vs Parallel.__init__ on the REGENERATED
+    # ---- _get_active_backend vs the hand model; judged by the same oracle
+    ctx.coq_build(["Gen/T_active_backend.vo"])
+    flats = gen_flat(ctx.rng, quick)
+    fcases = [flat_case(*f) for f in flats]
+    fres = run_impl_cases(fcases)
+    for c, r in zip(fcases, fres):
+        for bad, key, detail in judge_case(c, r):
+            if key is not None:
+                findings.setdefault(key, (bad, detail))
+            else:
+                problems.append((bad, c, detail))
+    use_src = "T_active_backend" not in rejected and os.path.exists(os.path.join(common.COQ, "Gen", "T_active_backend.vo"))
+    fexprs, fidx = [], []
+    for i, f in enumerate(flats):
+        for e in flat_exprs(*f):
+            if not use_src and ("pinit_src" in e or "show_active" in e):
+                continue
+            fexprs.append(e)
+            fidx.append(i)
+    fvals = ctx.coq_eval_lines(REQ_FLAT if use_src else REQ,
+                               DEFS + "\n" + DEFS_FLAT_BASE + ("\n" + DEFS_FLAT_SRC if use_src else ""),
+                               fexprs, name="c17_flat", shard=400)
+    for i, e, v in zip(fidx, fexprs, fvals):
+        r = fres[i]
+        if "harness_error" in r:
+            continue
+        q = flats[i][2]
+        tr = r["traces"][0]
+        iv = canon_obs(q, tr[0]) if tr else [9]
+        if parse_coq_lists(v) != iv:
+            disagreements.append({"case": fcases[i], "function": e.split()[1] if e.startswith("show_flat") else "src_get_active_backend",
+                                  "impl": iv, "model": v})
+    n_obs += len(flats)
+
     # ---- decide
     for bad, c, detail in problems[:3]:
-        rep = minimal_replay(detail) if detail and "query" in detail else c
+        rep = minimal_replay(detail, c.get("default_backend")) if detail and "query" in detail else c
         ctx.violation(bad, {"kind": "oracle", "case": rep, "detail": detail}, True)
     if disagreements and not problems:
         hit = search_failing(ctx, 600 if quick else 3000)
@@ -772,8 +883,9 @@ def run(ctx):
                 "observation inside >= 1 block with explicit arguments or raising; distinct by canonical JSON" % (
                     len(RED_SPECS), len(RED_ARGS) + len(RED_ACTIVE), n_exh, n_rand),
         "samples": [cases[-2], cases[-1]],
-        "traces_validated_against_impl": len(flat),
-        "model_evaluations": len(flat),
+        "traces_validated_against_impl": len(flat) + len(fexprs),
+        "model_evaluations": len(flat) + len(fexprs),
+        "flat_cases_per_default_backend": {dk: sum(1 for f in flats if f[0] == dk) for dk in ("loky", "thr", "seq", "mp")},
         "observation_distribution": dist,
         "threads_per_case": sorted({len(c["threads"]) for c in cases}),
         "disagreements": len(disagreements),
